@@ -60,19 +60,10 @@ KNOWN = [
          observed='builds; so does `let x :: ((import "lib.ucg").n) = "s";` with lib.ucg = `let n = 0;` (the mirror image of `identity`: when the static type of the '
                   'constraint EXPRESSION is unknown an exemplar constrains nothing; `let lib = import "lib.ucg"; let x :: (lib.n) = "s";` is refused)',
          clause='a named constraint behaves exactly like the same constraint written inline'),
-    # exclusion: first constraint a pure exemplar AND second constraint a pure exemplar AND the value conforms to the second AND the value widened by
-    # what the first exemplar says beyond it (fields the value lacks; in such a tuple also element types where the value has `[]`) does not
-    dict(id='wider_exemplar_remembered', input='let x :: {a = 0, b = ""} = {a = 1};\nlet y :: {a = 0, b = 0} = x;',
-         observed='refused (Incompatible Tuple Shapes) although the value of x, {a = 1}, conforms to {a = 0, b = 0}: the binding is remembered with the fields of the exemplar it '
-                  'does not have (flip side of fix 3247ac2); so are `let x :: {a = 0} = {}; let y :: {z = 1} = x;` and `let e = {a = 0, l = [""]}; let x :: e = {l = []}; let y :: {l = [true]} = x;`',
-         clause=CLAUSE),
-    # exclusion: first constraint a pure exemplar with `[]` where the value has a non-empty list AND second constraint a pure exemplar AND the value
-    # does not conform to the second AND the value with those lists emptied (an element of an emptied list: anything) would
-    dict(id='empty_list_exemplar_forgets', input='let x :: [] = [1];\nlet y :: [""] = x;',
-         observed='builds although [1] does not conform to [""]; so do `let y :: "s" = x.0;` and `let y :: [true] = x + x;` (after `:: []` the element type of the value is forgotten)',
-         clause=CLAUSE),
+    # (wider_exemplar_remembered and empty_list_exemplar_forgets were repaired in ucg: a constrained binding keeps the shape of its VALUE; the
+    # chained_lets family runs without exclusions.)
 ]
-KNOWN_FORMS = set(k['id'] for k in KNOWN) - {'selfref_shape_only', 'loose_constraint_expr', 'wider_exemplar_remembered', 'empty_list_exemplar_forgets'}
+KNOWN_FORMS = set(k['id'] for k in KNOWN) - {'selfref_shape_only', 'loose_constraint_expr'}
 
 
 # ------------------------------------------------------------------ values
@@ -949,9 +940,6 @@ def standin_chained_lets(tier, seed):
                 w_empty = use_forms(emptied(e1, v)).get(un, (0, 0, None))[2] if e1 is not None else w
                 for c2 in c2s:
                     ok = ok1 and admits(c2, w)
-                    if ok1 and static_only(c2) and ((ok and not admits(c2, w_wide)) or (not ok and (w_empty is None or admits(c2, w_empty)))):
-                        b.skipped += 1          # KNOWN: wider_exemplar_remembered / empty_list_exemplar_forgets
-                        continue
                     for c2w in ([c2, ('named', c2)] if thorough and rnd.random() < 0.3 else [rnd.choice([c2, c2, ('named', c2)])]):
                         pre = []
                         t1 = csrc(c1, pre)
